@@ -76,7 +76,7 @@ theorem prog_corr (P : Program) (src : Source) (L : List Int) (f' : Nat) (gs gs0
     exact hsy
   have hgname : g.top.name = l2.left.tok := by rw [as.name, hp1top]
   have hgargnum : g.top.argnum = (namesOf l2.right.left).length := by rw [as.argnum, hp1top]; simp
-  have hglen : g.code.length = gs.code.length + (k0 - 1) + 1 := by rw [hgcode]; simp
+  have hglen : g.code.length = gs.code.length + (k0 - 1) + 1 := by rw [hgcode]; simp <;> omega
   have hgpos : 0 < g.code.length := by omega
   have hgpre : gs.code <+: g.code := by rw [hgcode, List.append_assoc]; exact prefix_append_self _ _
   -- register invariants at the start of the body
@@ -120,12 +120,9 @@ theorem prog_corr (P : Program) (src : Source) (L : List Int) (f' : Nat) (gs gs0
   generalize hres : progPost bb (outNameOf l2.right.right) g.nextPos after = res at *
   have ok : RC.OK ⟨P.code, L, (bb.fetchVar (outNameOf l2.right.right)).1.top.regs, src, k, infos, gs.code.length + (k0 - 1) + 1⟩ :=
     ⟨fv.vq.tn (sq.gq.tn tn_g), fv.vq.ntn (sq.gq.ntn ntn_g), ⟨_, fv.vq.ctr PV_noPrefix (sq.ctr ctr_g)⟩⟩
-  generalize hidx : (bb.fetchVar (outNameOf l2.right.right)).2 = idx at *
-  generalize hRk : (bb.fetchVar (outNameOf l2.right.right)).1.top.regs = Rk at *
-  generalize hX : (⟨P.code, L, Rk, src, k, infos, gs.code.length + (k0 - 1) + 1⟩ : RC) = X at *
+  generalize hX : (⟨P.code, L, (bb.fetchVar (outNameOf l2.right.right)).1.top.regs, src, k, infos, gs.code.length + (k0 - 1) + 1⟩ : RC) = X at *
   have hXC : X.C = P.code := by rw [← hX]
   have hXL : X.L = L := by rw [← hX]
-  have hXR : X.R = Rk := by rw [← hX]
   have hbpre : bb.code <+: res.code := by rw [pq.code]; exact prefix_append_self _ _
   have hafl : after < bb.labels.length := by have := st.lablen; rw [hglabels] at this; simp at this; omega
   have hbafter : bb.labels[after]? = some (-1) := by
@@ -162,11 +159,11 @@ theorem prog_corr (P : Program) (src : Source) (L : List Int) (f' : Nat) (gs gs0
   simp only [List.length_append, List.length_replicate] at j1 j3
   rw [hXC] at j3
   -- the stack map
-  have hsmap : P.stackMaps[k]? = some ⟨l2.left.tok, smap Rk⟩ := by
+  have hsmap : P.stackMaps[k]? = some ⟨l2.left.tok, smap (bb.fetchVar (outNameOf l2.right.right)).1.top.regs⟩ := by
     refine prefix_getElem? hM ?_
     rw [pq.stackMaps, sq.gq.stackMaps, hgsm, st.name, hgname, ← ti.nprogs, getElem?_snoc_len]
   -- parameters
-  have hparams : paramsOK ⟨gs.code.length + (k0 - 1) + 1, k, smap Rk⟩ (namesOf l2.right.left) = true := by
+  have hparams : paramsOK ⟨gs.code.length + (k0 - 1) + 1, k, smap (bb.fetchVar (outNameOf l2.right.right)).1.top.regs⟩ (namesOf l2.right.left) = true := by
     unfold paramsOK
     rw [Bool.and_eq_true]
     refine ⟨?_, by simpa using hnd⟩
@@ -179,7 +176,7 @@ theorem prog_corr (P : Program) (src : Source) (L : List Int) (f' : Nat) (gs gs0
     simp only [beq_iff_eq]
     exact this
   -- RET
-  have hpre2 : bb.code ++ .ret idx :: [] <+: res.code := by rw [pq.code]; exact List.prefix_refl _
+  have hpre2 : bb.code ++ .ret (bb.fetchVar (outNameOf l2.right.right)).2 :: [] <+: res.code := by rw [pq.code]; exact List.prefix_refl _
   obtain ⟨r1, r2'⟩ := atw.instr hpre2 (by rw [hXL, hXC]; exact hag) (by intro h; cases h)
   have r3 := atw.skip_eq hpre2 (by rw [hXL, hXC]; exact hag) (by intro h; cases h)
   rw [hXC] at r3
@@ -189,14 +186,14 @@ theorem prog_corr (P : Program) (src : Source) (L : List Int) (f' : Nat) (gs gs0
     refine hfin after _ ?_ (by omega)
     rw [pq.labels, List.getElem?_set_self hafl]
   have hskip : skipc P.code pc + 1 = gs.code.length + (k0 - 1) + 1 := by rw [j3]
-  refine ⟨⟨gs.code.length + (k0 - 1) + 1, k, smap Rk⟩, ?_, ?_, ?_, ?_, ?_⟩
+  refine ⟨⟨gs.code.length + (k0 - 1) + 1, k, smap (bb.fetchVar (outNameOf l2.right.right)).1.top.regs⟩, ?_, ?_, ?_, ?_, ?_⟩
   · have hcp := checkProgs_cons_ok P src
       ⟨l2.left.tok, namesOf l2.right.left, outNameOf l2.right.right, (stmtsOf r2 gs.loops ps).1⟩ rest k infos pc
-      ((L[after]?).getD (-1) - ((gs.code.length + (k0 - 1) : Nat) : Int)) ⟨l2.left.tok, smap Rk⟩ w idx
+      ((L[after]?).getD (-1) - ((gs.code.length + (k0 - 1) : Nat) : Int)) ⟨l2.left.tok, smap (bb.fetchVar (outNameOf l2.right.right)).1.top.regs⟩ w (bb.fetchVar (outNameOf l2.right.right)).2
     rw [hskip] at hcp
     have hlen : res.code.length = skipc P.code w.pc + 1 := by rw [r3, pq.code]; simp
     rw [hlen]
-    refine hcp ?_ hsmap (namesNodup_smap Rk ok.ntn _ _) hparams ?_ ?_ ?_ ?_ ?_
+    refine hcp ?_ hsmap (namesNodup_smap (bb.fetchVar (outNameOf l2.right.right)).1.top.regs ok.ntn _ _) hparams ?_ ?_ ?_ ?_ ?_
     · have := j1
       unfold VEnv.at at this
       rw [← hX] at this
@@ -226,7 +223,7 @@ theorem prog_corr (P : Program) (src : Source) (L : List Int) (f' : Nat) (gs gs0
     · rw [if_pos hf] at hl
       cases hl
       rw [hlf, st.name, hgname, if_pos hf.symm]
-      refine ⟨_, ⟨gs.code.length + (k0 - 1) + 1, k, smap Rk⟩, rfl, ?_, ?_, ?_, ?_⟩
+      refine ⟨_, ⟨gs.code.length + (k0 - 1) + 1, k, smap (bb.fetchVar (outNameOf l2.right.right)).1.top.regs⟩, rfl, ?_, ?_, ?_, ?_⟩
       · simp only; rw [st.argnum, hgargnum]
       · rw [List.getElem?_append_right (by rw [ti.ninfos]; exact Nat.le_refl _), ti.ninfos]; simp
       · simp only; rw [sq.gq.stackMaps, hgsm, ti.nprogs]
